@@ -184,7 +184,6 @@ const (
 	DataTypesNonNull = ^DataTypeNull
 	DataTypesKeyable = DataTypeBool |
 		DataTypeInt |
-		DataTypeFloat |
 		DataTypeUID |
 		DataTypeTime |
 		DataTypeString |
